@@ -154,10 +154,47 @@ def exactly_once_rule(ctx, rid):
                 rr.bad(ctx.finding(rid, nf, c, "the swept function is called again while processing results (`%s`)" % norm(c), construct="direct-fn-call-nested"), "fn not called in closures")
     if not direct:
         rr.ok("combo_runner_core never calls `%s` itself" % fnp)
+    # a dispatcher: a module function that only hands its function parameter on to exactly one run-linear helper per path
+    dispatchers = set()
+    for cand in core.module.all_funcs:
+        if cand.qualname in HELPERS or cand is core or cand.parent is not None or cand.cls is not None or not cand.positional:
+            continue
+        cp = [p_ for p_ in cand.positional if p_ in ("fn", fnp)]
+        if not cp:
+            continue
+        cp = cp[0]
+        cu = [n for n in walk_shallow(cand.node) if isinstance(n, ast.Name) and n.id == cp and isinstance(n.ctx, ast.Load)]
+        if not cu:
+            continue
+        okd = True
+        for u in cu:
+            par = getattr(u, "_parent", None)
+            if not (isinstance(par, ast.Call) and u in par.args and callee_name(ctx, cand, par) in HELPERS) and not (isinstance(par, ast.keyword) and callee_name(ctx, cand, getattr(par, "_parent", None)) in HELPERS if isinstance(getattr(par, "_parent", None), ast.Call) else False):
+                okd = False
+        if not okd:
+            continue
+        cg = build_cfg(cand.node)
+        hnodes = [n.id for n in cg.nodes for c in node_calls(n) if callee_name(ctx, cand, c) in HELPERS]
+        if not hnodes or cg.exit.id in cg.reachable(blocked_nodes=hnodes):
+            continue
+        twice_d = False
+        for hid in hnodes:
+            aft = set()
+            for b_, l_ in cg.succ[hid]:
+                if l_ != "exc":
+                    aft |= cg.reachable(start=b_) | {b_}
+            if aft & set(hnodes):
+                twice_d = True
+        if twice_d:
+            continue
+        dispatchers.add(cand.qualname)
+        ctx.touch(cand, cg)
+        rr.ok("%s dispatches to exactly one run-linear helper on every path" % cand.name)
+    HELPERS_X = set(HELPERS) | dispatchers
     uses = [n for n in walk_shallow(core.node) if isinstance(n, ast.Name) and n.id == fnp and isinstance(n.ctx, ast.Load)]
     for u in uses:
         par = getattr(u, "_parent", None)
-        ok = isinstance(par, ast.Dict) or (isinstance(par, (ast.keyword,)) ) or (isinstance(par, ast.Call) and u in par.args and callee_name(ctx, core, par) in HELPERS)
+        ok = isinstance(par, ast.Dict) or (isinstance(par, (ast.keyword,)) ) or (isinstance(par, ast.Call) and u in par.args and callee_name(ctx, core, par) in HELPERS_X)
         if not ok:
             rr.bad(ctx.finding(rid, core, u, "the swept function flows somewhere other than the run-linear helpers: %s" % norm(par) if par is not None else fnp, construct="fn-flows-elsewhere"), "fn flow")
     # exactly one helper per configuration
@@ -168,7 +205,7 @@ def exactly_once_rule(ctx, rid):
         fl = inter.flow(core, val)
         if fl.cfg.exit.id not in fl.IN:
             continue
-        hn = [(n, c) for n in fl.cfg.nodes if n.id in fl.visited for c in node_calls(n) if callee_name(ctx, core, c) in HELPERS]
+        hn = [(n, c) for n in fl.cfg.nodes if n.id in fl.visited for c in node_calls(n) if callee_name(ctx, core, c) in HELPERS_X]
         vt = show_val(val)
         H = [n.id for n, _ in hn]
         g2 = fl.cfg
@@ -708,8 +745,24 @@ def placeholder_rule(ctx, rid):
     vals = sorted(norm(x.ast.value) for x in srt)
     if vals == ["list(case_coords[arg])", "sorted(case_coords[arg])"]:
         rr.ok("union coordinates sorted, with the unsortable fallback")
-    else:
+    elif not srt:
+        # the ordering lives in a helper: look for sorted(<x>) with a list(<x>) fallback in a function the core calls
+        found = False
+        for fn in ctx.res.slice([core]):
+            if fn.module is core.module and fn is not core:
+                rv = [norm(r.value) for r in ast.walk(fn.node) if isinstance(r, ast.Return) and r.value is not None]
+                if len(rv) == 2 and any(x.startswith("sorted(") for x in rv) and any(x.startswith(("list(", "tuple(")) for x in rv):
+                    ctx.touch(fn)
+                    found = True
+        if found:
+            rr.ok("union coordinates sorted, with the unsortable fallback (in a helper)")
+        else:
+            raise AnalysisError("idiom changed: ordering of the per-argument union of case values")
+    elif any("reverse=True" in v or "[::-1]" in v or "reversed(" in v for v in vals) or not any(v.startswith("sorted(") for v in vals) or \
+            (len(vals) == 2 and any(v.startswith("sorted(") for v in vals) and any("case_coords[arg]" not in v for v in vals)):
         rr.bad(ctx.finding(rid, core, srt[0].ast if srt else core.node, "the per-argument union of case values is not `sorted(...)` with a list() fallback (found %s)" % vals, construct="union-sorted"), "union sorted")
+    else:
+        raise AnalysisError("idiom changed: ordering of the per-argument union of case values: %s" % vals)
     return rr
 
 
@@ -824,8 +877,12 @@ def dims_rule(ctx, rid):
     d = single_def(f, "fn_args")
     if d is not None and norm(d[1]) in ("tuple((x for x, _ in combos))", "tuple(x for x, _ in combos)"):
         rr.ok("fn_args = names of `combos` in order")
+    elif d is not None and "combos" in names_in(d[1]) and any(w in norm(d[1]) for w in ("sorted(", "reversed(", "[::-1]", "set(")):
+        rr.bad(ctx.finding(rid, f, d[1], "results_to_ds takes the dimension names from `combos` in another order than the nesting of the results (`%s`)" % norm(d[1]), construct="fn_args-from-combos"), "fn_args")
+    elif d is not None and "combos" not in names_in(d[1]):
+        rr.bad(ctx.finding(rid, f, d[1], "results_to_ds no longer takes the dimension names from `combos` (`%s`)" % norm(d[1]), construct="fn_args-from-combos"), "fn_args")
     else:
-        rr.bad(ctx.finding(rid, f, d[1] if d else f.node, "results_to_ds no longer takes the dimension names from `combos` in order", construct="fn_args-from-combos"), "fn_args")
+        raise AnalysisError("idiom changed: fn_args in results_to_ds (%s)" % (norm(d[1]) if d else "no single definition"))
     dsc = [c for c in walk_shallow(f.node) if isinstance(c, ast.Call) and norm(c.func) in ("xr.Dataset", "xarray.Dataset") and c.keywords]
     need(len(dsc) == 1, "idiom changed: xr.Dataset(...) construction in results_to_ds")
     c = dsc[0]
@@ -881,7 +938,13 @@ def dims_rule(ctx, rid):
         else:
             rr.bad(ctx.finding(rid, f, t[0].ast, "constants are not recorded as coordinate-if-dimension-else-attribute", construct="constants-split"), "constants split")
     else:
-        rr.bad(ctx.finding(rid, f, f.node, "results_to_ds no longer decides per constant whether it is a coordinate (`k in ds.dims`)", construct="constants-split-missing"), "constants split")
+        alt = [n for n in g.nodes if n.kind == "test" and isinstance(n.ast, ast.Compare) and len(n.ast.ops) == 1 and isinstance(n.ast.ops[0], ast.In) and norm(n.ast.left) == "k"
+               and any(g.nodes[b].kind == "stmt" and g.nodes[b].text().startswith("ds.coords[k]") for b, l in g.succ[n.id] if l == "t")]
+        if alt:
+            rr.bad(ctx.finding(rid, f, alt[0].ast, "a constant becomes a coordinate when `%s` instead of when it names a dimension of the dataset (`k in ds.dims`): for results that bring their own dimensions (var_names=None) the constant is written to attrs "
+                               "and the dimension stays unlabelled" % norm(alt[0].ast), construct="constants-split"), "constants split")
+        else:
+            raise AnalysisError("idiom changed: the per-constant coordinate-or-attribute decision (`k in ds.dims`) is not in results_to_ds")
     return rr
 
 
